@@ -924,6 +924,42 @@ pub fn gen(prop: &str, verif_seed: u64, run_index: u64, tier: Tier) -> Trace {
             grid_point = true;
         }
     }
+    // rare "stress shapes": capacities and sample sizes around integer boundaries, filled by a long
+    // scan so that the large lists are really reached (most runs stay tiny, see 3.8)
+    let mut stress = false;
+    if !grid_point && prop != "C18" && rc.chance(1, 120) {
+        match h.kind {
+            Kind::Lru if !(h.random_state && h.ctor >= 1) => {
+                h.sizes[0] = *rc.pick(&[16usize, 32, 64, 255, 256, 257]);
+                stress = true;
+            }
+            Kind::TwoQ | Kind::Arc => {
+                h.sizes[0] = *rc.pick(&[16usize, 32, 64, 100]);
+                if h.kind == Kind::TwoQ && h.ratios.len() == 2 && !(h.random_state && h.ctor < 3) {
+                    h.ratios = vec![*rc.pick(&[0.1, 0.25, 0.3, 0.5]), *rc.pick(&[0.3, 0.5, 1.0])];
+                }
+                stress = true;
+            }
+            Kind::Slru => {
+                h.sizes = vec![*rc.pick(&[8usize, 16, 33]), *rc.pick(&[4usize, 16, 31])];
+                stress = true;
+            }
+            Kind::Wtlfu if !(h.random_state && h.ctor != 0) => {
+                h.sizes = vec![*rc.pick(&[1usize, 4, 9]), *rc.pick(&[4usize, 8, 17]), *rc.pick(&[4usize, 8, 15])];
+                h.samples = *rc.pick(&[41usize, 100, 255, 256, 257, 1000]);
+                stress = true;
+            }
+            Kind::Tlfu => {
+                h.samples = *rc.pick(&[41usize, 100, 255, 256, 257, 1000]);
+                stress = true;
+            }
+            _ => {}
+        }
+        if stress && h.kind.n_lists() > 0 {
+            let total: usize = h.sizes.iter().take(3).sum();
+            h.universe = (total + 5) as u32;
+        }
+    }
     let mut conversion_run = false;
     if prop == "C17" && rc.chance(1, 16) {
         // conversions (FromIterator / From<collection>) go through RandomState-keyed tables:
@@ -970,6 +1006,16 @@ pub fn gen(prop: &str, verif_seed: u64, run_index: u64, tier: Tier) -> Trace {
     } as usize;
     let len = if kind == Kind::Tlfu && h.sizes[0] > 4096 { len.min(10) } else { len };
     let len = if grid_point { len.min(12) } else { len };
+    let len = if stress {
+        let total: usize = h.sizes.iter().take(3).sum();
+        match kind {
+            Kind::Tlfu => (h.samples * 5 / 2).min(2600),
+            Kind::Wtlfu => (total * 3 + h.samples).min(1200),
+            _ => (total * 2 + 40 + rs.below(60) as usize).min(700),
+        }
+    } else {
+        len
+    };
     let mut events: Vec<Event> = Vec::new();
     let mut next_val = 1u64;
     match kind {
@@ -989,11 +1035,19 @@ pub fn gen(prop: &str, verif_seed: u64, run_index: u64, tier: Tier) -> Trace {
             let total: usize = h.sizes.iter().take(3).sum();
             let mut kg = KeyGen {
                 universe: h.universe,
-                mode: match rc.below(8) {
-                    0 => 1,
-                    1 => 2,
-                    2..=3 => 3,
-                    _ => 0,
+                mode: if stress {
+                    match rc.below(3) {
+                        0 => 1,
+                        1 => 2,
+                        _ => 0,
+                    }
+                } else {
+                    match rc.below(8) {
+                        0 => 1,
+                        1 => 2,
+                        2..=3 => 3,
+                        _ => 0,
+                    }
                 },
                 cursor: 0,
                 span: (total as u32 + 1).min(h.universe),
@@ -1051,7 +1105,7 @@ pub fn gen(prop: &str, verif_seed: u64, run_index: u64, tier: Tier) -> Trace {
         probe_all: pl.probe_all && rs.chance(3, 4),
         env_b: None,
     };
-    if prop == "C18" {
+    if prop == "C18" || stress {
         t.probe_all = false;
     }
     if prop == "C15" && t.header.with_cb && rs.chance(1, 5) {
